@@ -34,17 +34,27 @@ Theorem list_outputs_exact_thm : forall c i, f_lc (c_flags c) = false ->
 Proof. intros c i. apply (list_outputs_exact_gen the_code the_guards the_chk_outputs the_chk_stable). Qed.
 
 Theorem list_inputs_partial_thm : forall c i, f_lc (c_flags c) = false -> rejected c = false ->
-  trig_lookup i = false -> trig_nonj2 c i = false -> trig_support_override the_code c = false -> support_consistent c = true ->
+  eff_trig_lookup the_code i = false -> eff_trig_tpl the_code c i = false -> eff_trig_sup the_code c = false ->
+  (k_fix_suptpl the_code || support_consistent c) = true ->
   forall x, In x (influence_set the_code c i) ->
   forall f, exists out, run the_code (li_of c) i f = (f, out, Ok) /\ In x out.
 Proof. intros c i. apply (list_inputs_partial_gen the_code the_chk_inputs the_chk_stable). Qed.
+
+(* the full statement, live on a tree that has the three repairs (design_notes/C08_fix_*.patch): the only inputs --list-inputs
+   can then miss are Python package files loaded as templates *)
+Theorem list_inputs_complete_thm :
+  k_fix_lookup the_code = true -> k_fix_nonj2 the_code = true -> k_fix_suptpl the_code = true ->
+  forall c i, f_lc (c_flags c) = false -> rejected c = false -> trig_py c i = false ->
+  forall x, In x (influence_set the_code c i) ->
+  forall f, exists out, run the_code (li_of c) i f = (f, out, Ok) /\ In x out.
+Proof. exact (list_inputs_complete_gen the_code the_chk_inputs the_chk_stable). Qed.
 
 (* the argparse rule: --omit-serialization-support with --generate-support always is refused before anything happens *)
 Theorem rejected_does_nothing : forall c i f, rejected c = true -> run the_code c i f = (f, [], Rejected).
 Proof. intros c i f H. unfold run. unfold rejected in H. rewrite H. reflexivity. Qed.
 
 (* ---- witnesses (a made-up language so that they depend on the translated code only) -------- *)
-Definition w_tf (n : N) (j2 : bool) (cl : option cls) : tfile := {| tf_name := [n]; tf_path := [[112]; [n]]; tf_j2 := j2; tf_cls := cl |}.
+Definition w_tf (n : N) (j2 : bool) (cl : option cls) : tfile := {| tf_name := [n]; tf_path := [[112]; [n]]; tf_j2 := j2; tf_py := false; tf_cls := cl |}.
 Definition w_res : sres := {| sr_name := [115]; sr_stem := [115]; sr_j2 := true; sr_path := [[112]; [115]] |}.
 Definition w_lang : langinfo := {|
   l_ext := [46; 104]; l_stem := [95]; l_std_ns := false; l_support_ns := [[110]];
@@ -68,29 +78,29 @@ Definition w_inputs_plain : inputs :=
 Definition listed (c : cfg) (i : inputs) : list path := snd (fst (run the_code (li_of c) i fs_empty)).
 
 (* F-LIST-INPUTS-LOOKUP: the .dsdl of a --lookup-dir dependency influences the output and is not listed *)
-Lemma list_inputs_lookup_refuted_w :
+Lemma list_inputs_lookup_refuted_w : k_fix_lookup the_code = false ->
   let c := w_cfg SAsNeeded false None None in let x := [[108]; [68]] in
   trig_lookup w_inputs_lookup = true /\ trig_nonj2 c w_inputs_lookup = false /\ trig_support_override the_code c = false
   /\ path_in x (influence_set the_code c w_inputs_lookup) = true /\ path_in x (listed c w_inputs_lookup) = false.
-Proof. vm_compute. repeat split; reflexivity. Qed.
+Proof. intros H. vm_compute in H. first [discriminate H | vm_compute; repeat split; reflexivity]. Qed.
 
 (* F-LIST-INPUTS-NONJ2: a template file without the .j2 suffix that the environment loads (html: namespace_base.js and the files under assets) *)
 Definition w_tpl_nonj2 : list tfile := [w_tf 65 true (Some CAny); w_tf 120 false None].
 Definition w_inputs_nonj2 : inputs :=
   {| i_roots := [w_type 1 114 65 []]; i_lookup := []; i_root_dir := [[114]]; i_loaded_types := [[65]; [120]] |}.
-Lemma list_inputs_nonj2_refuted_w :
+Lemma list_inputs_nonj2_refuted_w : k_fix_nonj2 the_code = false ->
   let c := w_cfg SAsNeeded false (Some w_tpl_nonj2) None in let x := [[112]; [120]] in
   trig_lookup w_inputs_nonj2 = false /\ trig_nonj2 c w_inputs_nonj2 = true /\ trig_support_override the_code c = false
   /\ path_in x (influence_set the_code c w_inputs_nonj2) = true /\ path_in x (listed c w_inputs_nonj2) = false.
-Proof. vm_compute. repeat split; reflexivity. Qed.
+Proof. intros H. vm_compute in H. first [discriminate H | vm_compute; repeat split; reflexivity]. Qed.
 
 (* F-LIST-INPUTS-SUPTPL: --support-templates DIR shadows the packaged support template; the packaged one is listed *)
-Definition w_sup_dir : list tfile := [{| tf_name := [115]; tf_path := [[100]; [115]]; tf_j2 := true; tf_cls := None |}].
-Lemma list_inputs_support_override_refuted_w :
+Definition w_sup_dir : list tfile := [{| tf_name := [115]; tf_path := [[100]; [115]]; tf_j2 := true; tf_py := false; tf_cls := None |}].
+Lemma list_inputs_support_override_refuted_w : k_fix_suptpl the_code = false ->
   let c := w_cfg SAsNeeded false None (Some w_sup_dir) in let x := [[100]; [115]] in
   trig_lookup w_inputs_plain = false /\ trig_nonj2 c w_inputs_plain = false /\ trig_support_override the_code c = true
   /\ path_in x (influence_set the_code c w_inputs_plain) = true /\ path_in x (listed c w_inputs_plain) = false.
-Proof. vm_compute. repeat split; reflexivity. Qed.
+Proof. intros H. vm_compute in H. first [discriminate H | vm_compute; repeat split; reflexivity]. Qed.
 
 (* non-vacuity: a real run that succeeds and creates type and support files; its listing; the hypotheses of the partial theorem *)
 Definition created (c : cfg) (i : inputs) (p : path) : bool := fst (fst (run the_code (real_of c) i fs_empty)) p.
@@ -106,8 +116,8 @@ Proof. vm_compute. repeat split; reflexivity. Qed.
 
 Lemma example_partial_hyps :
   let c := w_cfg SAsNeeded false None None in
-  rejected c = false /\ trig_lookup w_inputs_plain = false /\ trig_nonj2 c w_inputs_plain = false
-  /\ trig_support_override the_code c = false /\ support_consistent c = true
+  rejected c = false /\ eff_trig_lookup the_code w_inputs_plain = false /\ eff_trig_tpl the_code c w_inputs_plain = false
+  /\ eff_trig_sup the_code c = false /\ support_consistent c = true /\ trig_py c w_inputs_plain = false
   /\ path_in [[114]; [66]] (influence_set the_code c w_inputs_plain) = true.
 Proof. vm_compute. repeat split; reflexivity. Qed.
 
@@ -133,8 +143,8 @@ Proof. vm_compute. reflexivity. Qed.
 (* two custom templates with the same basename in different sub-directories are both listed *)
 Definition w_nested_dir : list tfile :=
   [w_tf 65 true (Some CAny);
-   {| tf_name := [109; 47; 98]; tf_path := [[112]; [109]; [98]]; tf_j2 := true; tf_cls := None |};
-   {| tf_name := [115; 47; 98]; tf_path := [[112]; [115]; [98]]; tf_j2 := true; tf_cls := None |}].
+   {| tf_name := [109; 47; 98]; tf_path := [[112]; [109]; [98]]; tf_j2 := true; tf_py := false; tf_cls := None |};
+   {| tf_name := [115; 47; 98]; tf_path := [[112]; [115]; [98]]; tf_j2 := true; tf_py := false; tf_cls := None |}].
 Lemma example_same_basename_both_listed :
   let c := w_cfg SNever false (Some w_nested_dir) None in
   path_in [[112]; [109]; [98]] (listed c w_inputs_plain) = true /\ path_in [[112]; [115]; [98]] (listed c w_inputs_plain) = true.
